@@ -1331,6 +1331,20 @@ M.contract(P_JUNIT + ':JUnitRootSuiteReporter.report_final_results', params=dict
                    == count_prefix(self._sub_reporters, len(self._sub_reporters), _included, self._root_suite)),
            }, raises_only=())
 
+# the two real root reporters implement RootReporterI.new_sub_suite_reporter: a new SubSuiteReporter of the
+# suite, without results, appended to the reporters of the run (whose results the final report reads)
+for _qn, _shape in ((P_SPR + ':SimpleProgressRootSuiteReporter.new_sub_suite_reporter', PROGRESS_ROOT_IO),
+                    (P_JUNIT + ':JUnitRootSuiteReporter.new_sub_suite_reporter', JUNIT_ROOT_IO)):
+    M.contract(_qn, params=dict(self=_shape, sub_suite=SUITE), inline=True, modifies={},
+               old=lambda self: len(self._sub_reporters),
+               ensures={
+                   'a new reporter of this suite, without results, is appended to the reporters of the run':
+                       lambda self, sub_suite, old, ret:
+                       len(self._sub_reporters) == old + 1 and self._sub_reporters[old] is ret
+                       and isinstance(ret, reporting.SubSuiteReporter) and ret.suite is sub_suite
+                       and len(ret.result()) == 0,
+               }, raises_only=())
+
 @M.check('exit-values')
 def _exit_values(ctx):
     for name, ev, code, ident in (('ALL_PASS', exit_values.ALL_PASS, 0, 'OK'),
